@@ -121,6 +121,19 @@ Theorem C16_socks5_authentication_from_source : forall d port a,
   end.
 Proof. exact authentication_generated. Qed.
 
+(* SOCKS5._start (the greeting) and _request_connection (the CONNECT request: reached through the translated
+   _first_response / _auth_response, whose runs inline it) *)
+Theorem C16_socks5_greeting_from_source : forall c, c_proto c = P5 ->
+  run_reply socks5_start_code c [] = RAct (Send (start5 c) S5First) None.
+Proof. intros c H. rewrite (socks5_start_generated c H). cbn. rewrite H. reflexivity. Qed.
+
+Theorem C16_socks5_connect_from_source : forall c d,
+  N.eqb (nth0 d 0) 1 = true -> N.eqb (nth0 d 1) 0 = true ->
+  run_reply socks5_auth_response_code c d = RAct (Send (request_connection c) S5Conn) (Some 2).
+Proof.
+  intros c d H0 H1. rewrite socks5_auth_response_generated. cbn. change s5_auth_version with 1%N. rewrite H0, H1. reflexivity.
+Qed.
+
 (* composed with the exactness theorems: the server-side parser reads the intended fields back from the bytes the
    TRANSLATED SOCKS4a code builds - the host name octet for octet, whatever its letters *)
 Theorem C16_socks4a_source_request_parses : forall h port a,
@@ -151,3 +164,5 @@ Print Assumptions C16_socks5_destination_from_source.
 Print Assumptions C16_socks5_long_name_refused_from_source.
 Print Assumptions C16_socks5_authentication_from_source.
 Print Assumptions C16_socks4a_source_request_parses.
+Print Assumptions C16_socks5_greeting_from_source.
+Print Assumptions C16_socks5_connect_from_source.
